@@ -290,7 +290,7 @@ impl C06 {
 				if !ok {
 					v.push(run.viol(
 						"reservation_consistent",
-						"locked_output_without_live_sent_entry",
+						&format!("locked_output_without_live_sent_entry:{}", kind),
 						format!(
 							"after {} in {} at {:?}: output {} is Locked but no live sent entry {:?} exists",
 							fk,
@@ -325,7 +325,7 @@ impl C06 {
 			if ins.len() != t.num_inputs || in_sum != t.amount_debited || change != t.num_outputs {
 				v.push(run.viol(
 					"reservation_atomic",
-					"reservation_partial",
+					&format!("reservation_partial:{}", kind),
 					format!(
 						"after {} in {} at {:?}: sent entry {} says {} inputs / {} debited / {} change outputs, records show {} / {} / {}",
 						fk, kind, step.fault, t.id, t.num_inputs, t.amount_debited, t.num_outputs, ins.len(), in_sum, change
